@@ -182,9 +182,9 @@ POLL_CONTRACT = """
             final(w).status is None ==> final(w).redirects.len() == 0 && *final(fs) == *old(fs) && final(w).acquire_calls == 0 && final(w).attest_calls == 0 && !final(w).completed,  // @C09.poll.failed_or_invalid_status_changes_nothing_else
             final(w).status matches Some(st) ==> valid_status(st),  // @C09.poll.only_a_valid_document_is_acted_on
             // ---- rule ids and rules follow the document (independently of what happens to the key afterwards)
-            final(w).status matches Some(st) && !final(w).actor_failed ==> rules_step(old(w).s, final(w).s, st, Endpoint::WireServer),  // @C09.poll.wireserver_rules_follow_the_document
-            final(w).status matches Some(st) && !final(w).actor_failed ==> rules_step(old(w).s, final(w).s, st, Endpoint::Imds),  // @C09.poll.imds_rules_follow_the_document
-            final(w).status matches Some(st) && !final(w).actor_failed ==> rules_step(old(w).s, final(w).s, st, Endpoint::HostGA),  // @C09.poll.hostga_rules_follow_the_document
+            final(w).status is Some && !final(w).actor_failed ==> rules_step(old(w).s, final(w).s, final(w).status->0, Endpoint::WireServer),  // @C09.poll.wireserver_rules_follow_the_document
+            final(w).status is Some && !final(w).actor_failed ==> rules_step(old(w).s, final(w).s, final(w).status->0, Endpoint::Imds),  // @C09.poll.imds_rules_follow_the_document
+            final(w).status is Some && !final(w).actor_failed ==> rules_step(old(w).s, final(w).s, final(w).status->0, Endpoint::HostGA),  // @C09.poll.hostga_rules_follow_the_document
             // ---- a complete iteration
             final(w).completed ==> final(w).status is Some,
             final(w).completed && !final(w).actor_failed ==> final(w).s.state == sc_state(final(w).status->0),  // @C09.poll.state_is_the_documents_channel_state
@@ -211,64 +211,6 @@ RULES_CONTRACT = """
 RULE_ID_CONTRACT = """
         ensures r@ == doc_rule_id(*self, Endpoint::%(e)s),  // @C09.%(f)s.rule_id_of_the_document
 """
-
-
-def build(u):
-    u.externs.append("serde_derive")
-    u.features += ["allocator_api"]
-    key = u.src("proxy_agent/src/key_keeper/key.rs")
-    kk = u.src("proxy_agent/src/key_keeper.rs")
-    err = u.src("proxy_agent/src/common/error.rs")
-    sherr = u.src("proxy_agent_shared/src/error.rs")
-    cs = u.src("proxy_agent/src/common/constants.rs")
-    for f in ("str_axioms.rs", "ext_types.rs", "std_string.rs"):
-        u.raw(open(os.path.join(COMMON, f)).read())
-    for f in ("fs_spec.rs", "deps.rs", "spec.rs"):
-        u.raw("// ---- contracts/keystore/%s\n" % f + open(os.path.join(KEYSTORE, f)).read())
-    u.raw_file("deps.rs")
-    u.raw_file("status_spec.rs")
-    with u.mod("proxy_agent_shared"):
-        with u.mod("error"):
-            u.take_ext(sherr, ["Error", "ParseVersionErrorType", "CommandErrorType"], "vx_ext_shared_error")
-    with u.mod("common"):
-        with u.mod("error"):
-            u.take_ext(err, ["Error", "HyperErrorType", "WireServerErrorType", "KeyErrorType", "AclErrorType", "BpfErrorType"], "vx_ext_error", uses="use http::{uri::InvalidUri, StatusCode};", opaque=False, transparent=False)
-            for n in ("Error", "KeyErrorType"):
-                u.emit("#[verifier::external_type_specification]\npub struct VxEx_vx_ext_error_%s(crate::vx_ext_error::%s);" % (n, n), "glue", "E1")
-            for n in ("HyperErrorType", "WireServerErrorType", "AclErrorType", "BpfErrorType"):
-                u.emit("#[verifier::external_type_specification]\n#[verifier::external_body]\npub struct VxEx_vx_ext_error_%s(crate::vx_ext_error::%s);" % (n, n), "glue", "E1")
-        with u.mod("result", uses="use super::error::Error;"):
-            u.raw("pub type Result<T> = core::result::Result<T, Error>;")
-        with u.mod("constants"):
-            for c in ("AUTHORIZATION_SCHEME", "KEY_DELIVERY_METHOD_HTTP", "KEY_DELIVERY_METHOD_VTPM"):
-                u.take(cs, c, "const")
-    with u.mod("key_keeper"):
-        for c in ("DISABLE_STATE", "MUST_SIG_WIRESERVER", "MUST_SIG_WIRESERVER_IMDS", "UNKNOWN_STATE"):
-            u.take(kk, c, "const")
-        with u.mod("key", uses=KEY_USES):
-            u.take(key, "AUDIT_MODE", "const")
-            u.take(key, "ENFORCE_MODE", "const")
-            build_key_types(u, key)
-            PRE = "broadcast use axiom_str_ext, axiom_string_ext, axiom_to_string_string, group_fmt;\nproof { lits_status(); lits_consts(); }"
-            with u.impl_(key, "KeyStatus"):
-                u.take_fn(key, "KeyStatus::validate", pre_body=PRE, contract="""
-        ensures r is Ok <==> valid_status(*self),  // @C09.validate.ok_iff_document_valid
-                r is Ok ==> r->Ok_0,
-""")
-                gs = key.item("KeyStatus::get_secure_channel_state", "fn")
-                u.take_fn(key, "KeyStatus::get_secure_channel_state", pre_body=PRE,
-                          e9=[fmt_stub(u, key, gs, "get_secure_channel_state", 0, ["&str", "&str", "&str"], ["$@", "$@", "$@"])],
-                          contract="""
-        ensures r@ == sc_state(*self),  // @C09.get_secure_channel_state.state_of_the_document
-""")
-                for (f, e) in (("get_wireserver_rule_id", "WireServer"), ("get_imds_rule_id", "Imds"), ("get_hostga_rule_id", "HostGA")):
-                    u.take_fn(key, "KeyStatus::" + f, pre_body=PRE, contract=RULE_ID_CONTRACT % dict(f=f, e=e))
-                for (f, e) in (("get_wireserver_rules", "WireServer"), ("get_imds_rules", "Imds"), ("get_hostga_rules", "HostGA")):
-                    u.take_fn(key, "KeyStatus::" + f, pre_body=PRE, contract=RULES_CONTRACT % dict(f=f, e=e))
-                for (f, e) in (("get_wire_server_mode", "WireServer"), ("get_imds_mode", "Imds"), ("get_hostga_mode", "HostGA")):
-                    u.take_fn(key, "KeyStatus::" + f, pre_body=PRE, contract=MODE_CONTRACT % dict(f=f, e=e))
-
-    build_poll(u, kk, key)
 
 
 def pick_call(sf, it, lo, hi, name, receiver_has):
@@ -303,11 +245,17 @@ use std::{path::PathBuf, time::Duration};
 use tokio_util::sync::CancellationToken;"""
 
 
-def build_poll(u, kk, key):
+def build(u):
+    u.externs.append("serde_derive")
+    u.features += ["allocator_api"]
     ks = keystore_contracts()
+    key = u.src("proxy_agent/src/key_keeper/key.rs")
+    kk = u.src("proxy_agent/src/key_keeper.rs")
+    err = u.src("proxy_agent/src/common/error.rs")
+    sherr = u.src("proxy_agent_shared/src/error.rs")
+    cs = u.src("proxy_agent/src/common/constants.rs")
     lg = u.src("proxy_agent/src/common/logger.rs")
     hp = u.src("proxy_agent/src/common/helpers.rs")
-    cs = u.src("proxy_agent/src/common/constants.rs")
     pv = u.src("proxy_agent/src/provision.rs")
     ar = u.src("proxy_agent/src/proxy/authorization_rules.rs")
     el = u.src("proxy_agent_shared/src/telemetry/event_logger.rs")
@@ -319,9 +267,17 @@ def build_poll(u, kk, key):
     tw = u.src("proxy_agent/src/shared_state/telemetry_wrapper.rs")
     rl = u.src("proxy_agent/src/redirector/linux.rs")
     acl = u.src("proxy_agent/src/acl.rs")
+    for f in ("str_axioms.rs", "ext_types.rs", "std_string.rs"):
+        u.raw(open(os.path.join(COMMON, f)).read())
+    for f in ("fs_spec.rs", "deps.rs", "spec.rs"):
+        u.raw("// ---- contracts/keystore/%s\n" % f + open(os.path.join(KEYSTORE, f)).read())
+    u.raw_file("deps.rs")
+    u.raw_file("status_spec.rs")
     u.raw_file("poll_spec.rs")
     u.raw_file("poll_deps.rs")
     with u.mod("proxy_agent_shared"):
+        with u.mod("error"):
+            u.take_ext(sherr, ["Error", "ParseVersionErrorType", "CommandErrorType"], "vx_ext_shared_error")
         with u.mod("result", uses="use super::error::Error;"):
             u.raw("pub type Result<T> = core::result::Result<T, Error>;")
         with u.mod("logger"):
@@ -333,14 +289,23 @@ def build_poll(u, kk, key):
             with u.mod("event_logger", uses="use log::Level;"):
                 u.take_fn(el, "write_event", external_body=True, ret="")
     with u.mod("common"):
+        with u.mod("error"):
+            u.take_ext(err, ["Error", "HyperErrorType", "WireServerErrorType", "KeyErrorType", "AclErrorType", "BpfErrorType"], "vx_ext_error", uses="use http::{uri::InvalidUri, StatusCode};", opaque=False, transparent=False)
+            for n in ("Error", "KeyErrorType"):
+                u.emit("#[verifier::external_type_specification]\npub struct VxEx_vx_ext_error_%s(crate::vx_ext_error::%s);" % (n, n), "glue", "E1")
+            for n in ("HyperErrorType", "WireServerErrorType", "AclErrorType", "BpfErrorType"):
+                u.emit("#[verifier::external_type_specification]\n#[verifier::external_body]\npub struct VxEx_vx_ext_error_%s(crate::vx_ext_error::%s);" % (n, n), "glue", "E1")
+        with u.mod("result", uses="use super::error::Error;"):
+            u.raw("pub type Result<T> = core::result::Result<T, Error>;")
+        with u.mod("constants"):
+            for c in ("AUTHORIZATION_SCHEME", "KEY_DELIVERY_METHOD_HTTP", "KEY_DELIVERY_METHOD_VTPM", "MAX_LOG_FILE_COUNT"):
+                u.take(cs, c, "const")
         with u.mod("logger"):
             u.take(lg, "AGENT_LOGGER_KEY", "const")
             for f in ("write", "write_information", "write_warning", "write_error"):
                 u.take_fn(lg, f, external_body=True, ret="")
         with u.mod("helpers"):
             u.take_fn(hp, "write_startup_event", external_body=True)
-    with u.mod("common"):
-        pass
     with u.mod("acl", uses="use crate::common::result::Result;\nuse std::path::PathBuf;"):
         u.take_fn(acl, "acl_directory", external_body=True)
     with u.mod("proxy"):
@@ -383,12 +348,38 @@ def build_poll(u, kk, key):
         u.take_fn(pv, "key_latched", external_body=True, ret="")
     with u.mod("redirector", uses="use crate::shared_state::redirector_wrapper::RedirectorSharedState;"):
         for (f, e) in (("update_wire_server_redirect_policy", "WireServer"), ("update_imds_redirect_policy", "Imds"), ("update_hostga_redirect_policy", "HostGA")):
-            u.take_fn(rl, f, external_body=True, ghost=W_, contract=redirect_contract(e))
-    with u.mod("common"):
-        with u.mod("constants"):
-            u.take(cs, "MAX_LOG_FILE_COUNT", "const")
+            u.take_fn(rl, f, external_body=True, ghost=W_, contract=redirect_contract(e), ret="")
     with u.mod("key_keeper", uses=KK_USES):
+        for c in ("DISABLE_STATE", "MUST_SIG_WIRESERVER", "MUST_SIG_WIRESERVER_IMDS", "UNKNOWN_STATE"):
+            u.take(kk, c, "const")
         with u.mod("key", uses=KEY_USES + "\nuse hyper::Uri;"):
+            u.take(key, "AUDIT_MODE", "const")
+            u.take(key, "ENFORCE_MODE", "const")
+            build_key_types(u, key)
+            PRE = "broadcast use axiom_str_ext, axiom_string_ext, axiom_to_string_string, group_fmt;\nproof { lits_status(); lits_consts(); }"
+            with u.impl_(key, "KeyStatus"):
+                u.take_fn(key, "KeyStatus::validate", pre_body=PRE, contract="""
+        ensures r is Ok <==> valid_status(*self),  // @C09.validate.ok_iff_document_valid
+                r is Ok ==> r->Ok_0,
+""")
+                gs = key.item("KeyStatus::get_secure_channel_state", "fn")
+                u.take_fn(key, "KeyStatus::get_secure_channel_state", pre_body=PRE,
+                          e9=[fmt_stub(u, key, gs, "get_secure_channel_state", 0, ["&str", "&str", "&str"], ["$@", "$@", "$@"])],
+                          contract="""
+        ensures r@ == sc_state(*self),  // @C09.get_secure_channel_state.state_of_the_document
+""")
+                for (f, e) in (("get_wireserver_rule_id", "WireServer"), ("get_imds_rule_id", "Imds"), ("get_hostga_rule_id", "HostGA")):
+                    u.take_fn(key, "KeyStatus::" + f, pre_body=PRE, contract=RULE_ID_CONTRACT % dict(f=f, e=e))
+                for (f, e) in (("get_wireserver_rules", "WireServer"), ("get_imds_rules", "Imds"), ("get_hostga_rules", "HostGA")):
+                    u.take_fn(key, "KeyStatus::" + f, pre_body=PRE, contract=RULES_CONTRACT % dict(f=f, e=e))
+                for (f, e) in (("get_wire_server_mode", "WireServer"), ("get_imds_mode", "Imds"), ("get_hostga_mode", "HostGA")):
+                    u.take_fn(key, "KeyStatus::" + f, pre_body=PRE, contract=MODE_CONTRACT % dict(f=f, e=e))
+            with u.impl_(key, "<Key as Clone>"):
+                u._in_trait_impl = True
+                u.take_fn(key, "<Key as Clone>::clone", make_pub=False, pre_body=PRE, contract="""
+        ensures r == *self,  // @C08.Key_clone.clone_is_the_same_key
+""")
+                u._in_trait_impl = False
             u.take_fn(key, "get_status", external_body=True, ghost=W_, contract=GET_STATUS_CONTRACT)
             u.take_fn(key, "acquire_key", external_body=True, ghost=FS_RO + ", " + W_, contract=ACQUIRE_CONTRACT)
             u.take_fn(key, "attest_key", external_body=True, ghost=FS_RO + ", " + W_, contract=ATTEST_CONTRACT)
@@ -419,7 +410,7 @@ def build_poll(u, kk, key):
             gc.append(("key::attest_key", None, "Tracked(fs), Tracked(w)"))
             u.slice_fn(kk, "KeyKeeper::loop_poll", "vx_poll_once", lo, hi, "&self, " + FS + ", " + W_, ret_type="()", is_async=True,
                        replacements=[("continue;", "all", "return;")], ghost_calls=gc,
-                       pre_body="broadcast use axiom_str_ext, axiom_string_ext, axiom_to_string_string, group_fmt, group_fs;\nproof { lits_status(); lits_consts(); }\n",
+                       pre_body="broadcast use axiom_str_ext, axiom_string_ext, axiom_to_string_string, group_fmt, group_fs, axiom_fmt_key_status;\nproof { lits_status(); lits_consts(); }\n",
                        tail="proof { w.completed = true; }\n",
                        contract=POLL_CONTRACT,
                        what="(loop body of loop_poll from the status request to the end; E5 drops: the sleep/notify select!, the provision time-up and event-thread start-up statements, get_notify and set_module_state(RUNNING) before the loop)")
